@@ -60,19 +60,29 @@ fn strategy_name(s: AllocationStrategy) -> &'static str {
 }
 
 #[allow(clippy::too_many_arguments)]
+struct Header {
+    initial: usize,
+    max_borrow: usize,
+    max_loans: usize,
+    grown: u64,
+}
+
+/// executes one scenario on the real ports; everything observed is appended to `recs` (so that it
+/// survives a panic of the code under test, which is data)
+#[allow(clippy::too_many_arguments)]
 fn scenario(
     node: &Node<ipc::Service>,
-    w: &mut TraceWriter,
     run: u64,
     rng: &mut vlib::rng::Rng,
     strategy: AllocationStrategy,
     palign: usize,
     steps: u64,
-    summary: &mut std::collections::HashMap<String, u64>,
+    hdr: &mut Header,
+    recs: &mut Vec<Rec>,
 ) {
-    let initial = *rng.pick(&[1usize, 3, 8, 16, 100, 1000]);
-    let max_borrow = 5usize;
-    let max_loans = *rng.pick(&[1usize, 2, 3]);
+    let initial = hdr.initial;
+    let max_borrow = hdr.max_borrow;
+    let max_loans = hdr.max_loans;
     let name = format!("c15/growth/{run}/{}", rng.below(1 << 30));
     let service = node
         .service_builder(&name.as_str().try_into().unwrap())
@@ -94,7 +104,6 @@ fn scenario(
         .expect("publisher");
     let subscriber = service.subscriber_builder().create().expect("subscriber");
 
-    let mut recs: Vec<Rec> = vec![];
     let mut held = VecDeque::new(); // (n, sample)
     let mut pending: VecDeque<u64> = VecDeque::new(); // sent, not yet received
     let mut n = 0u64;
@@ -111,6 +120,7 @@ fn scenario(
             let f = rng.range(11, 25) as usize;
             len = (len * f / 10 + rng.below(3) as usize).min(300_000);
             grown += 1;
+            hdr.grown = grown;
             len
         };
         // several loans at the same time (up to the configured limit, and one beyond it now and then)
@@ -210,11 +220,11 @@ fn scenario(
         }
     };
     for _ in 0..max_borrow {
-        send_one(&mut recs, &mut pending, &mut n);
-        recv_one(&mut recs, &mut pending, &mut held);
+        send_one(recs, &mut pending, &mut n);
+        recv_one(recs, &mut pending, &mut held);
     }
     for _ in 0..4 {
-        send_one(&mut recs, &mut pending, &mut n); // fills the subscriber buffer
+        send_one(recs, &mut pending, &mut n); // fills the subscriber buffer
     }
     let mut loans = vec![];
     for _ in 0..max_loans {
@@ -245,9 +255,22 @@ fn scenario(
         recs.push(Rec { a: "release", n: hn, len: 0, r: "ok".into(), ok: 1, addr: 0 });
     }
     for _ in 0..4 {
-        recv_one(&mut recs, &mut pending, &mut held);
+        recv_one(recs, &mut pending, &mut held);
     }
     held.clear();
+}
+
+#[allow(clippy::too_many_arguments)]
+fn emit(
+    w: &mut TraceWriter,
+    run: u64,
+    strategy: AllocationStrategy,
+    palign: usize,
+    hdr: &Header,
+    recs: &[Rec],
+    summary: &mut std::collections::HashMap<String, u64>,
+) {
+    let (initial, max_loans, max_borrow, grown) = (hdr.initial, hdr.max_loans, hdr.max_borrow, hdr.grown);
     // TLC integers are 32 bit: compress the gaps between the mappings (clusters of intervals that
     // are closer than 64 KiB keep their relative layout; every cluster starts 4096-aligned, so
     // alignments up to 4096, overlaps and disjointness are preserved)
@@ -306,7 +329,20 @@ pub fn main(args: &Args) {
         let strategy = strategies[(run % 3) as usize];
         // every strategy meets every payload alignment (the first rounds use the large ones)
         let palign = [64usize, 256, 8, 1][((run / 3) % 4) as usize];
-        scenario(&node, &mut w, run, &mut rng, strategy, palign, steps, &mut summary);
+        let mut hdr = Header {
+            initial: *rng.pick(&[1usize, 3, 8, 16, 100, 1000]),
+            max_borrow: 5,
+            max_loans: *rng.pick(&[1usize, 2, 3]),
+            grown: 0,
+        };
+        let mut recs: Vec<Rec> = vec![];
+        let r = std::panic::catch_unwind(std::panic::AssertUnwindSafe(|| {
+            scenario(&node, run, &mut rng, strategy, palign, steps, &mut hdr, &mut recs)
+        }));
+        if r.is_err() {
+            recs.push(Rec { a: "panic", n: 0, len: 0, r: "panic".into(), ok: 0, addr: 0 });
+        }
+        emit(&mut w, run, strategy, palign, &hdr, &recs, &mut summary);
     }
     w.flush();
     println!("{}", json!({"scenarios":scenarios,"events":w.lines,"per_action":summary}));
